@@ -86,8 +86,11 @@ func H_c14_writer() {
 	case 1: // caller-supplied buffered writer (the BufWriter fast path), small buffer: many flushes
 		bw := bufio.NewWriterSize(fw, vp.ParamInt("bufsize", 16))
 		err = md.Convert(src, bw)
+		// Render flushes a caller-supplied BufWriter before it returns ("Flush error returned", renderer.go): a
+		// fault below the buffer is therefore reported by Convert itself, and on success nothing is left behind
 		if err == nil {
-			err = bw.Flush() // the caller owns the buffer: the sticky error must still be there
+			vp.Assert(bw.Buffered() == 0, "Convert returned with output still sitting in the caller's buffered writer (a failure of the destination below it would go unreported)")
+			err = bw.Flush()
 		}
 	}
 	if k < len(want) {
